@@ -70,7 +70,12 @@ pub fn bases() -> Vec<(AbsReplay, usize)> {
 		}
 		a
 	};
-	vec![(mk((0, 1), false, 1, true), 0), (mk((2, 2), false, 1, false), 0), (mk((3, 0), false, 2, true), 0), (mk((3, 16), true, 1, true), 0), (mk((3, 16), true, 2, false), 0), (mk((3, 7), false, 1, true), 0)]
+	// a finished replay without any frame: with skip_frames the jump distance is zero
+	let mut zero = mk((3, 16), false, 1, true);
+	zero.frames.clear();
+	let mut zero_old = mk((1, 0), false, 1, false);
+	zero_old.frames.clear();
+	vec![(zero, 0), (zero_old, 0), (mk((0, 1), false, 1, true), 0), (mk((2, 2), false, 1, false), 0), (mk((3, 0), false, 2, true), 0), (mk((3, 16), true, 1, true), 0), (mk((3, 16), true, 2, false), 0), (mk((3, 7), false, 1, true), 0)]
 }
 
 pub fn schedules(bytes: &[u8], skip: bool, hash: bool, two_dev: bool) -> Vec<Sched> {
@@ -107,7 +112,7 @@ pub fn schedules(bytes: &[u8], skip: bool, hash: bool, two_dev: bool) -> Vec<Sch
 
 pub fn run() {
 	let cx = ctx();
-	cx.note("rule", json!("6 replays (all regimes; gecko, doubled end, no metadata) x read schedules of an environment-owned reader: full reads, fixed chunk sizes 1..16/32/../4096, EVERY two-piece split (one short read at every byte offset), every single short read (1,2,3 bytes) at every read-call index, and (thorough) every pair of short reads; x skip_frames {off,on}; plus 1..64 trailing bytes after the closing brace; plus hash not requested; plus .slpp carry-through for 3 compressions. Oracle: hash == \"xxh3:\" + 16 hex digits of the ONE-SHOT xxh3_64 over the bytes through the closing brace (a different code path from the streaming hasher), identical for all schedules and both skip settings. Every case is non-trivial (a distinct schedule)"));
+	cx.note("rule", json!("8 replays (all regimes; gecko, doubled end, no metadata, two without any frame) x read schedules of an environment-owned reader: full reads, fixed chunk sizes 1..16/32/../4096, EVERY two-piece split (one short read at every byte offset), every single short read (1,2,3 bytes) at every read-call index, and (thorough) every pair of short reads; x skip_frames {off,on}; plus 1..64 trailing bytes after the closing brace; plus hash not requested; plus .slpp carry-through for 3 compressions. Oracle: hash == \"xxh3:\" + 16 hex digits of the ONE-SHOT xxh3_64 over the bytes through the closing brace (a different code path from the streaming hasher), identical for all schedules and both skip settings. Every case is non-trivial (a distinct schedule)"));
 	cx.note("exhaustive", json!(true));
 	cx.note("assumptions", json!(["xxhash-rust's one-shot xxh3_64 is the reference (trusted base)", "short reads hand out at least one byte (a zero-length read means EOF)"]));
 	let mut jobs: Vec<(Arc<Vec<u8>>, String, P)> = vec![];
